@@ -14,9 +14,10 @@ git clean -fdq -- patronus patronus-dse patronus-egraphs tools python 2>/dev/nul
 # 2. apply patch: existing tests
 git apply MUTANT/patch.diff
 cargo test --workspace --no-fail-fast --offline > "$W/MUTANT/confirm_tests.log" 2>&1
-passed=$(grep -c "^test .* \.\.\. ok$" "$W/MUTANT/confirm_tests.log")
+# (summed from the "test result:" lines: stderr of the reader's diagnostics can garble single "test ... ok" lines)
+passed=$(grep "^test result" "$W/MUTANT/confirm_tests.log" | awk '{p+=$4} END {print p+0}')
 failed_other=$(grep "^test .* \.\.\. FAILED$" "$W/MUTANT/confirm_tests.log" | grep -v "smt::solver::tests::" | grep -vc "^test test_")
-failed=$(grep -c "^test .* \.\.\. FAILED$" "$W/MUTANT/confirm_tests.log")
+failed=$(grep "^test result" "$W/MUTANT/confirm_tests.log" | awk '{f+=$6} END {print f+0}')
 # 3. demo with patch must fail
 bash -c "$DEMO" >>"$LOG" 2>&1; patched=$?
 git clean -fdq -- patronus patronus-dse patronus-egraphs tools python 2>/dev/null
